@@ -12,7 +12,8 @@ def ima_harnesses(sels=("SEL_SEEKREAD", "SEL_WRITE")):
                              unwind=8, unwindset=["main.%d:%d" % (i, big) for i in range(12)] + ["stub_decode.0:%d" % (spb * ch + 1), "stub_decode.1:%d" % (spb * ch + 1),
                                                   "stub_encode.0:%d" % (spb * ch + 1), "stub_encode.1:%d" % (spb * ch + 1), "ima_read_block.0:5", "ima_write_block.0:5",
                                                   "ima_read_s.0:3", "ima_write_s.0:3", "psf_memset.0:65", "memcpy.0:%d" % ((2 * spb + 4) * ch * 2 + 1), "memset.0:%d" % ((2 * spb + 4) * ch * 2 + 1)],
-                             checks="mem", include_env=("log_stub", "memfile", "memset_model", "memcpy_model"), timeout=600,
+                             checks="mem", include_env=("log_stub", "memfile", "memset_model", "memcpy_model"), timeout=600 if ch == 1 else 3000,
+                             tiers=("quick", "thorough") if ch == 1 else ("thorough",),
                              functions=["ima_read_s", "ima_read_block", "wavlike_ima_seek", "aiff_ima_seek", "ima_write_s", "ima_write_block", "ima_close"],
                              bounds="3 blocks of %d samples per channel, %d channel(s), block transformer = K-block contract stub; read p <= B+2, seek to any k in [0, F], read n <= B+2; write n <= B+3 split at any j" % (spb, ch)))
     return out
@@ -32,4 +33,16 @@ def ms_harnesses(sels=("SEL_SEEKREAD", "SEL_INIT")):
                          tiers=("quick", "thorough") if ch == 1 else ("thorough",),
                          functions=["msadpcm_read_s", "msadpcm_read_block", "msadpcm_seek", "msadpcm_decode_block", "wavlike_msadpcm_init"],
                          bounds="3 blocks of %d bytes (%d samples), %d channel(s), concrete position-distinct file bytes; read p <= B+2, seek to any k in [0, F], read n <= B+2" % (bs, spb, ch)))
+    return out
+
+
+def sds_harnesses(sels=("SEL_FLUSH", "SEL_HEADER")):
+    out = []
+    for sel in sels:
+        d = {sel: 1, "MF_CAP": 0x15 + 4 * 127 + 2, "MF_MAXIO": 128, "MEMCPY_MAX": 260}
+        out.append(H("blk.sds16." + sel[4:].lower(), "L3/blk_sds.c", link=["common"], stubs=["psf_log_printf", "psf_memset"], defines=d,
+                     unwind=130, unwindset=["psf_fread.0:129", "psf_fwrite.0:129", "psf_memset.0:65", "memcpy.0:261", "memset.0:261", "psf_binheader_writef.1:40"],
+                     checks="mem", include_env=("log_stub", "memfile", "memset_model", "memcpy_model", "snprintf_model"), timeout=900, fsa=700,
+                     functions=["sds_close", "sds_write_header", "sds_2byte_write", "sds_2byte_read"],
+                     bounds="16-bit SDS, 0..2 complete packets before, pending packet with fill level 1..59 (symbolic), symbolic samples"))
     return out
